@@ -125,21 +125,17 @@ def ser_tag(t):
 class Opened:
     """ELFFile + the objects a client holds on to.  dwarf comes from a second ELFFile over the same bytes
     so that the ELF-level state (lazily built name map, cursor) starts untouched."""
-    def __init__(self, meta):
+    def __init__(self, meta, parts='DE'):
         from elftools.elf.elffile import ELFFile
         self.meta = meta
-        self.elf = ELFFile(io.BytesIO(meta['image']))
-        self.symtab = self.elf.get_section(meta['symtab_idx']) if meta['symtab_idx'] is not None else None
-        self.dyn = self.elf.get_section(meta['dyn_idx']) if meta['dyn_idx'] is not None else None
-        self.strtab = self.symtab.stringtable if self.symtab is not None else None
-        self.dw = None
-        if meta['has_dwarf']:
-            self.dw = ELFFile(io.BytesIO(meta['image'])).get_dwarf_info()
-            for sid, attr in SIDS.items():
-                sec = getattr(self.dw, attr)
-                if sec is not None:
-                    sec.stream.seek(0)
-        self.elf.stream.seek(0)
+        self.elf = self.symtab = self.dyn = self.strtab = None
+        if 'E' in parts:
+            self.elf = ELFFile(io.BytesIO(meta['image']))
+            self.symtab = self.elf.get_section(meta['symtab_idx']) if meta['symtab_idx'] is not None else None
+            self.dyn = self.elf.get_section(meta['dyn_idx']) if meta['dyn_idx'] is not None else None
+            self.strtab = self.symtab.stringtable if self.symtab is not None else None
+            self.elf.stream.seek(0)
+        self.dw = fresh_dwarf(meta) if (meta['has_dwarf'] and 'D' in parts) else None
         self.slots = [None] * NSLOTS
         self.counts = [0] * NSLOTS
         self.ids = meta['ids']
@@ -147,7 +143,7 @@ class Opened:
     # ---- streams
     def stream(self, sid):
         if sid == 0:
-            return self.elf.stream
+            return self.elf.stream if self.elf is not None else None
         if self.dw is None:
             return None
         sec = getattr(self.dw, SIDS[sid])
@@ -321,7 +317,7 @@ class Opened:
                      for off, lp in dw._linetable_cache.items()]
         else:
             keys, units, abbrevs, lines = [], [], [], []
-        m = elf._section_name_map
+        m = elf._section_name_map if elf is not None else None
         secmap = 'none' if m is None else [[self.ids.name(n), i] for n, i in m.items()]
         m = self.symtab._symbol_name_map if self.symtab is not None else None
         symmap = 'none' if m is None else [[self.ids.name(n), list(l)] for n, l in m.items()]
@@ -406,6 +402,42 @@ def _fresh_dw(image):
     return ELFFile(io.BytesIO(image)).get_dwarf_info()
 
 
+def fresh_dwarf(meta):
+    """a fresh DWARFInfo over private copies of the section streams, all cursors at 0.  The first one is
+    made by ELFFile.get_dwarf_info(); later ones by calling the same constructor with the same arguments
+    (read back from the attributes of the first), which avoids re-reading the ELF container each time."""
+    tmpl = meta.get('dw_template')
+    if tmpl is None:
+        dw = _fresh_dw(meta['image'])
+        args = {}
+        ok = True
+        try:
+            for pname in list(inspect.signature(type(dw).__init__).parameters)[1:]:
+                v = getattr(dw, pname)
+                if pname.endswith('_sec') and v is not None:
+                    v = (v, v.stream.getvalue())
+                args[pname] = v
+        except Exception:
+            ok = False
+        meta['dw_template'] = (type(dw), args) if ok else False
+        tmpl = meta['dw_template']
+    if tmpl is False:
+        dw = _fresh_dw(meta['image'])
+    else:
+        cls, args = tmpl
+        kw = {}
+        for k, v in args.items():
+            if isinstance(v, tuple) and len(v) == 2 and isinstance(v[1], bytes) and k.endswith('_sec'):
+                v = v[0]._replace(stream=io.BytesIO(v[1]))
+            kw[k] = v
+        dw = cls(**kw)
+    for sid, attr in SIDS.items():
+        sec = getattr(dw, attr)
+        if sec is not None:
+            sec.stream.seek(0)
+    return dw
+
+
 def _set_sentinels(dw, skip=()):
     for sid, attr in SIDS.items():
         sec = getattr(dw, attr)
@@ -443,7 +475,7 @@ def _raw_of(die, ids, eff):
     return [die.size, int(die.is_null()), int(bool(die.has_children)), sib, refs, stmt, ids.of(ser_die(die)), eff]
 
 
-def tabulate_unit_tree(image, u, ids, fresh_each, stub=False):
+def tabulate_unit_tree(image, u, ids, fresh_each, stub=False, limit=10 ** 9):
     """flat sequential walk over the entries of the unit at u (absolute parses only), tree by a stack"""
     dw = _fresh_dw(image)
     cu = dw.get_CU_at(u)
@@ -454,10 +486,12 @@ def tabulate_unit_tree(image, u, ids, fresh_each, stub=False):
     end = cu.cu_offset + cu.size
     if top.is_null():
         raise ValueError('null top DIE')
+    def as_stub():
+        r = list(top_raw)
+        r[2] = 0
+        return [top.offset, r, [], 0, _dummy_raw()], abbrev_end, 1
     if stub or not top.has_children:
-        top_raw = list(top_raw)
-        top_raw[2] = 0
-        return [top.offset, top_raw, [], 0, _dummy_raw()], abbrev_end, 1
+        return as_stub()
     root = {'off': top.offset, 'raw': top_raw, 'kids': [], 'toff': None, 'traw': None}
     stack = [root]
     pos = top.offset + top.size
@@ -473,6 +507,8 @@ def tabulate_unit_tree(image, u, ids, fresh_each, stub=False):
         die = cu.get_DIE_from_refaddr(pos)
         raw = _raw_of(die, ids, _read_effects(dw, skip=(1, 2)))
         count += 1
+        if count > limit:
+            return as_stub()
         if die.is_null():
             n = stack.pop()
             n['toff'], n['traw'] = pos, raw
@@ -584,7 +620,8 @@ def tabulate(meta, fresh_each=True, die_budget=4000):
             while off < info_size:
                 cu = _fresh_dw(image).get_CU_at(off) if fresh_each else dw.get_CU_at(off)
                 stub = budget <= 0
-                tree, abbrev_end, count = tabulate_unit_tree(image, off, ids, fresh_each, stub=stub)
+                tree, abbrev_end, count = tabulate_unit_tree(image, off, ids, fresh_each, stub=stub, limit=budget)
+                stub = stub or (count == 1 and tree[1][2] == 0 and tree[2] == [])
                 budget -= count
                 ab = cu['debug_abbrev_offset']
                 dwx = _fresh_dw(image)
@@ -706,6 +743,7 @@ def alphabet(meta, machine):
         ops += [['Disturb', 0, 0], ['Disturb', 0, len(meta['image']) // 2 + 1]]
         ops += [['ENumSections'], ['ESection', 2], ['ESection', meta['symtab_idx']],
                 ['ESectionByName', ids.name('.debug_info') if meta['name'] != 'C' else ids.name('.data')],
+                ['ESectionByName', ids.name('.strtab')],
                 ['ESectionByName', ids.name('.no-such-name')], ['ESegment', 1]]
         ops += [['ESymbol', 2], ['ESymbolByName', ids.name({'A': 'dup', 'B': 'h', 'C': 'f2'}[meta['name']])],
                 ['EString', 1]]
@@ -715,36 +753,40 @@ def alphabet(meta, machine):
 
 
 # ------------------------------------------------------------------ running histories on the implementation
-def run_impl(meta, history, every=False):
-    """-> (answers, abstract states as sx text (all or last))"""
-    o = Opened(meta)
+def run_impl(meta, history, stride=0, parts='DE'):
+    """-> (answers, abstract states as sx text after every stride-th call and the last one)"""
+    o = Opened(meta, parts)
     answers, states = [], []
-    for op in history:
+    n = len(history)
+    for j, op in enumerate(history):
         answers.append(sx.canon(o.do(op)))
-        if every:
+        if j + 1 == n or (stride and (j + 1) % stride == 0):
             states.append(sx.dumps(o.abs_state()))
-    if not every:
+    if not history:
         states.append(sx.dumps(o.abs_state()))
     return answers, states
 
 
 _POOL_META = None
+_POOL_PARTS = 'DE'
 
 
 def _edge_worker(task):
     history = task
-    ans, st = run_impl(_POOL_META, history)
+    ans, st = run_impl(_POOL_META, history, parts=_POOL_PARTS)
     return ans[-1] if ans else None, st[-1]
 
 
-def explore(meta, machine, depth, workers=12):
+def explore(meta, machine, depth, workers=16):
     """breadth-first over the alphabet, de-duplicated on the abstract state.
     -> list of (history, last answer, state text), number of states"""
     import multiprocessing
-    global _POOL_META
+    global _POOL_META, _POOL_PARTS
     _POOL_META = meta
+    _POOL_PARTS = machine
     ops = alphabet(meta, machine)
-    _, st0 = run_impl(meta, [])
+    fresh_dwarf(meta)          # the template is made before the workers are forked
+    _, st0 = run_impl(meta, [], parts=machine)
     seen = {st0[0]: []}
     frontier = [[]]
     edges = []
@@ -767,23 +809,42 @@ def explore(meta, machine, depth, workers=12):
 
 
 # ------------------------------------------------------------------ the driver (raw lines: states are compared as text)
-def drv_runs(ctx, meta, histories, every=False):
-    """-> per history (model answers, spec answers, valid flags, [state texts])"""
+_OPTXT = {}
+
+
+def _hist_txt(h):
+    out = []
+    for op in h:
+        k = tuple(op)
+        s = _OPTXT.get(k)
+        if s is None:
+            s = _OPTXT[k] = sx.dumps(op)
+        out.append(s)
+    return '(' + ' '.join(out) + ')'
+
+
+def drv_runs(ctx, meta, histories, stride=0, raw_last=False):
+    """-> per history (model answers, spec answers, valid flags, [state texts]).
+    raw_last: only the LAST call's answers, as text '(answer)', and valid as a bool (no parsing)."""
     if not histories:
         return []
     fuel = 64 + 4 * sum(len(entries_of(u['tree'])) for u in meta['units']) + 2 * meta['num_tags'] + len(meta['units'])
     fuel = max(fuel, 200)
-    file_txt = sx.dumps(meta['desc'])
+    file_txt = meta.get('desc_txt')
+    if file_txt is None:
+        file_txt = meta['desc_txt'] = sx.dumps(meta['desc'])
     out = []
-    CH = 4000
-    for i in range(0, len(histories), CH):
-        chunk = histories[i:i + CH]
-        lines = []
-        for h in chunk:
-            lines.append('("runs" %s %s %s %s (%s))' % (file_txt, hex(NSLOTS), hex(fuel), '0x1' if every else '0x0',
-                                                       sx.dumps(h)))
+    K = 50 if len(file_txt) < 100000 else 1
+    lines = []
+    for i in range(0, len(histories), K):
+        lines.append('("runs" %s %s %s %s %s (%s))' % (file_txt, hex(NSLOTS), hex(fuel), hex(stride),
+                                                      '0x1' if raw_last else '0x0',
+                                                      ' '.join(_hist_txt(h) for h in histories[i:i + K])))
+    CH = max(1, 20000000 // (len(file_txt) + 2000))
+    for i in range(0, len(lines), CH):
+        chunk = lines[i:i + CH]
         p = subprocess.run(['bash', '-c', 'ulimit -s unlimited 2>/dev/null; exec "$0"', ctx.driver.exe],
-                           input='\n'.join(lines) + '\n', stdout=subprocess.PIPE, stderr=subprocess.PIPE, text=True)
+                           input='\n'.join(chunk) + '\n', stdout=subprocess.PIPE, stderr=subprocess.PIPE, text=True)
         res = p.stdout.split('\n')
         if res and res[-1] == '':
             res.pop()
@@ -791,54 +852,15 @@ def drv_runs(ctx, meta, histories, every=False):
             raise RuntimeError('driver failed rc=%s answered %d of %d: %s' % (p.returncode, len(res), len(chunk), p.stderr[-400:]))
         ctx.driver.calls += len(chunk)
         for line in res:
-            out.append(_split_run(line))
-    return out
-
-
-def _split_run(line):
-    """'(( (model) (spec) (valid) (states) ))' -> parsed first three, state texts"""
-    # the response is a list with one element (one history per request)
-    assert line.startswith('((')
-    body = line[1:-1]
-    parts = _top_elements(body[1:-1], 4)
-    model, spec, valid = sx.loads(parts[0]), sx.loads(parts[1]), sx.loads(parts[2])
-    states = _top_elements(parts[3][1:-1], None)
-    return model, spec, valid, states
-
-
-def _top_elements(s, limit):
-    """split the text of a list body into its top-level elements (first `limit`, rest as last)"""
-    out = []
-    i, n = 0, len(s)
-    while i < n:
-        while i < n and s[i] == ' ':
-            i += 1
-        if i >= n:
-            break
-        if limit is not None and len(out) == limit - 1:
-            out.append(s[i:].strip())
-            break
-        st = i
-        if s[i] == '(':
-            depth = 0
-            while True:
-                c = s[i]
-                if c == '(':
-                    depth += 1
-                elif c == ')':
-                    depth -= 1
-                    if depth == 0:
-                        i += 1
-                        break
-                elif c == '"':
-                    i = s.index('"', i + 1)
-                i += 1
-        elif s[i] == '"':
-            i = s.index('"', i + 1) + 1
-        else:
-            while i < n and s[i] not in ' ()':
-                i += 1
-        out.append(s[st:i])
+            for piece in line[1:-1].split('"#"')[1:]:
+                parts = piece.split('"|"')
+                if raw_last:
+                    out.append((parts[0].strip(), parts[1].strip(), '0x0' not in parts[2], [q.strip() for q in parts[3:]]))
+                else:
+                    out.append((sx.canon(sx.loads(parts[0])), sx.canon(sx.loads(parts[1])), sx.loads(parts[2]),
+                                [q.strip() for q in parts[3:]]))
+    if len(out) != len(histories):
+        raise RuntimeError('driver answered %d of %d histories' % (len(out), len(histories)))
     return out
 
 
@@ -1010,7 +1032,7 @@ def _minimise(ctx, meta, history, bad):
             return False
         impl, _ = run_impl(meta, hh)
         (model, spec, valid, _), = drv_runs(ctx, meta, [hh])
-        return all(valid) and impl[-1] != sx.canon(spec[-1]) and hh[-1] == h[-1]
+        return all(valid) and impl[-1] != spec[-1]
     n = 2
     body = h[:-1]
     last = h[-1]
@@ -1031,85 +1053,97 @@ def _minimise(ctx, meta, history, bad):
     return body + [last]
 
 
+def _stride(meta):
+    n = sum(len(entries_of(u['tree'])) for u in meta['units'])
+    return 1 if n <= 300 else 25
+
+
 def evaluate(ctx, cases):
     by_file = {}
     for idx, (kind, a) in enumerate(cases):
         by_file.setdefault(a[0], []).append(idx)
-    wf_cache = {}
     iso = {}
     for name, idxs in by_file.items():
         meta = load_file(name)
         wf, nodef = ctx.driver.one(['wf', meta['desc']])
-        wf_cache[name] = (bool(wf), bool(nodef))
+        wf = bool(wf) and not meta.get('lp_disagree')
         if not wf:
             ctx.notes.append('wf_file is false for %s: its cases are out of domain' % name)
-        hs = [cases[i][1][1] for i in idxs]
-        every = [cases[i][0] == 'rnd' for i in idxs]
-        res_last = drv_runs(ctx, meta, [h for h, e in zip(hs, every) if not e], every=False)
-        res_every = drv_runs(ctx, meta, [h for h, e in zip(hs, every) if e], every=True)
-        it_last, it_every = iter(res_last), iter(res_every)
-        for i, h, ev in zip(idxs, hs, every):
-            kind = cases[i][0]
-            model, spec, valid, mstates = next(it_every) if ev else next(it_last)
-            model, spec = sx.canon(model), sx.canon(spec)
-            if kind == 'bfs':
-                cached = _CACHE.get(_hkey(name, h))
-                if cached is None:
-                    ans, sts = run_impl(meta, h)
-                    cached = (ans[-1], sts[-1])
-                impl_last, impl_state = cached
-                ok_state = impl_state == mstates[-1]
-                t = iso.setdefault(name, [0, 0, None])
+        t = iso.setdefault(name, [0, 0, None])
+        bfs = [i for i in idxs if cases[i][0] == 'bfs']
+        rnd = [i for i in idxs if cases[i][0] != 'bfs']
+        # ---------- explored edges: last answer and abstract state after the history
+        res = drv_runs(ctx, meta, [cases[i][1][1] for i in bfs], stride=0, raw_last=True)
+        for i, (model_t, spec_t, valid, mstates) in zip(bfs, res):
+            h = cases[i][1][1]
+            cached = _CACHE.get(_hkey(name, h))
+            if cached is None:
+                ans, sts = run_impl(meta, h)
+                cached = (ans[-1], sts[-1])
+            impl_last, impl_state = cached
+            t[0] += 1
+            if impl_state != mstates[-1]:
+                t[1] += 1
+                if t[2] is None:
+                    t[2] = h
+            ctx.bump('bfs_op', h[-1][0])
+            ctx.bump('bfs_len', len(h))
+            impl_t = '(' + sx.dumps(impl_last) + ')'
+            if impl_t == spec_t and model_t == spec_t:     # the common case, compared as text
+                spec = model = impl_last
+            else:
+                spec, model = sx.canon(sx.loads(spec_t))[0], sx.canon(sx.loads(model_t))[0]
+            key = finding_key(meta, h)
+            if impl_last != model:
+                key = 'history:' + h[-1][0]      # not the behaviour the model of a known finding describes
+            ctx.record('bfs', [name, h], impl=impl_last, spec=spec, model=model, in_domain=wf and valid,
+                       nontrivial=len(h) >= 2 or h[-1][0] not in ('Disturb', 'ENumSections'), key=key)
+        # ---------- long histories: every answer, abstract states along the way
+        stride = _stride(meta)
+        res = drv_runs(ctx, meta, [cases[i][1][1] for i in rnd], stride=stride)
+        for i, (model, spec, valid, mstates) in zip(rnd, res):
+            h = cases[i][1][1]
+            impl, istates = run_impl(meta, h, stride=stride)
+            for j, (a, b) in enumerate(zip(istates, mstates)):
                 t[0] += 1
-                if not ok_state:
+                if a != b:
                     t[1] += 1
                     if t[2] is None:
-                        t[2] = h
-                in_dom = wf_cache[name][0] and all(valid) and not meta.get('lp_disagree')
-                ctx.bump('bfs_op', h[-1][0])
-                ctx.bump('bfs_len', len(h))
-                ctx.record('bfs', [name, h], impl=impl_last, spec=spec[-1], model=model[-1], in_domain=in_dom,
-                           nontrivial=len(h) >= 2 or h[-1][0] not in ('Disturb', 'ENumSections'),
-                           key=finding_key(meta, h))
+                        t[2] = h[:(j + 1) * stride]
+            bad = None
+            for j in range(len(h)):
+                if not valid[j]:
+                    break
+                if impl[j] != spec[j] or model[j] != spec[j]:
+                    bad = j
+                    break
+            ctx.bump('rnd_file', name.split('/')[-1])
+            ctx.bump('rnd_len', len(h))
+            if bad is None:
+                nv = sum(1 for v in valid if v)
+                short = h if len(h) <= 8 else ['sha256', hashlib.sha256(repr(h).encode()).hexdigest(), len(h)]
+                ctx.record('rnd', [name, short], impl=['all-equal', nv], spec=['all-equal', nv],
+                           model=['all-equal', nv], in_domain=wf and nv == len(h), nontrivial=True,
+                           key='history:random')
             else:
-                impl, istates = run_impl(meta, h, every=True)
-                t = iso.setdefault(name, [0, 0, None])
-                for j in range(len(h)):
-                    t[0] += 1
-                    if istates[j] != mstates[j]:
-                        t[1] += 1
-                        if t[2] is None:
-                            t[2] = h[:j + 1]
-                bad = None
-                for j in range(len(h)):
-                    if not valid[j]:
-                        break
-                    if impl[j] != spec[j] or model[j] != spec[j]:
-                        bad = j
-                        break
-                in_dom = wf_cache[name][0] and not meta.get('lp_disagree')
-                ctx.bump('rnd_file', name.split('/')[-1])
-                ctx.bump('rnd_len', len(h))
-                if bad is None:
-                    nv = sum(1 for v in valid if v)
-                    ctx.record('rnd', [name, h if len(h) <= 8 else ['sha', hashlib.sha256(repr(h).encode()).hexdigest(), len(h)]],
-                               impl=['all-equal', nv], spec=['all-equal', nv], model=['all-equal', nv],
-                               in_domain=in_dom and nv == len(h), nontrivial=True, key='history:random')
-                else:
-                    hh = _minimise(ctx, meta, h, bad) if (impl[bad] != spec[bad] and len(h) > 2) else h[:bad + 1]
-                    i2, _ = run_impl(meta, hh)
-                    (m2, s2, v2, _), = drv_runs(ctx, meta, [hh])
-                    ctx.record('rnd', [name, hh], impl=i2[-1], spec=sx.canon(s2[-1]), model=sx.canon(m2[-1]),
-                               in_domain=in_dom and all(v2), nontrivial=True, key=finding_key(meta, hh))
+                hh = h[:bad + 1]
+                if impl[bad] != spec[bad] and len(hh) > 2:
+                    hh = _minimise(ctx, meta, h, bad)
+                i2, _ = run_impl(meta, hh)
+                (m2, s2, v2, _), = drv_runs(ctx, meta, [hh])
+                key = finding_key(meta, hh)
+                if i2[-1] != m2[-1]:
+                    key = 'history:' + hh[-1][0]
+                ctx.record('rnd', [name, hh], impl=i2[-1], spec=s2[-1], model=m2[-1],
+                           in_domain=wf and all(v2), nontrivial=True, key=key)
     for name, (n, bad, first) in iso.items():
         ctx.record('state-graph', [name], impl=['edges', n, 'state-mismatches', bad],
                    spec=['edges', n, 'state-mismatches', bad], model=['edges', n, 'state-mismatches', 0],
                    in_domain=False, nontrivial=False, key='state-graph')
         if bad:
-            ctx.notes.append('abstract state of the implementation differs from the model on %d of %d edges of %s; '
-                             'first: %r' % (bad, n, name, first))
+            ctx.notes.append('abstract state of the implementation differs from the model on %d of %d compared '
+                             'states of %s; first: %r' % (bad, n, name, first))
     if hasattr(ctx, 'c10_stats'):
-        ctx.notes.append('exploration: %r' % (ctx.c10_stats,))
         for k, v in ctx.c10_stats.items():
-            ctx.bump('bfs_states', '%s depth<=%d: %d states, %d edges%s' %
-                     (k, v['depth'], v['states'], v['edges'], ' (closed)' if v['closed'] else ''))
+            ctx.bump('exploration', '%s: alphabet %d, depth<=%d, %d states, %d edges%s' %
+                     (k, v['alphabet'], v['depth'], v['states'], v['edges'], ', closed' if v['closed'] else ''))
